@@ -86,7 +86,23 @@ def join(a, b):
 
 
 def _fkey(f):
-    return id(f[1]) if f[0] == "clo" else (f[1].kind, f[1].dotted)
+    if f[0] == "clo":
+        return id(f[1])
+    if f[0] == "tag":
+        return ("tag", f[1])
+    return (f[1].kind, f[1].dotted)
+
+
+def has_tag(v, name):
+    return any(f[0] == "tag" and f[1] == name for f in v.fn)
+
+
+def tagged(name):
+    return Val([F], None, [("tag", name)])
+
+
+NOCOPY = "copy=False"          # an options mapping that (may) carry copy=False
+INPLACE_OBJ = "inplace-object"  # a library estimator constructed with copy=False: data passed to fit are overwritten
 
 
 def _fns(a, b):
@@ -234,8 +250,21 @@ class AliasEngine:
         self.flow = Flow(repo)
         self.max_depth = max_depth
         self._memo = {}
+        self._init_tags = {}
         self._active = set()
         self.stats = {"functions": 0, "calls": 0}
+
+    def init_tags(self, cls):
+        """tags (e.g. 'constructed with copy=False') of the attributes the constructor of ``cls`` leaves on self"""
+        key = cls.qual
+        if key not in self._init_tags:
+            self._init_tags[key] = {}
+            hit = self.repo.lookup_method(cls, "__init__")
+            if hit is not None:
+                s = self.summary(hit[1], hit[0].module, cls, hit[0])
+                self._init_tags[key] = {k: tuple(f for f in v.fn if f[0] == "tag") for k, v in s.self_out.items()
+                                        if any(f[0] == "tag" for f in v.fn)}
+        return self._init_tags[key]
 
     # ------------------------------------------------------------------ summaries
     def summary(self, fn, module, cls=None, defcls=None, static=False, depth=0):
@@ -326,7 +355,9 @@ class _FnAnalysis:
     def get(self, st, name):
         v = st.get(name)
         if v is None and name.startswith("self."):
-            return mk("A", name)
+            base = mk("A", name)
+            tags = self.eng.init_tags(self.cls).get(name) if (self.cls is not None and getattr(self.fn, "name", "") != "__init__") else None
+            return Val(base.atoms, None, tags) if tags else base
         return v
 
     def join_states(self, states):
@@ -558,6 +589,9 @@ class _FnAnalysis:
             root = t.value
             while isinstance(root, (ast.Subscript, ast.Attribute)) and not (isinstance(root, ast.Attribute) and self.is_self(root.value)):
                 root = root.value
+            if isinstance(t.slice, ast.Constant) and t.slice.value == "copy" and isinstance(getattr(node, "value", None), ast.Constant) \
+                    and node.value.value is False and isinstance(root, ast.Name) and root.id in st:
+                st[root.id] = join(st[root.id], tagged(NOCOPY))
             if has_rel(v):
                 if isinstance(root, ast.Name) and not self.is_self(root) and root.id in st:
                     st[root.id] = join(st[root.id], elemify(v))
@@ -644,6 +678,8 @@ class _FnAnalysis:
     def ev_Dict(self, e, st):
         vals = [FRESH]
         for k, v in zip(e.keys, e.values):
+            if isinstance(k, ast.Constant) and k.value == "copy" and isinstance(v, ast.Constant) and v.value is False:
+                vals.append(tagged(NOCOPY))
             if k is not None:
                 self.ev(k, st)
             vals.append(elemify(self.ev(v, st)))
@@ -756,14 +792,17 @@ class _FnAnalysis:
             pos, kw, star = self.eval_args(call, st)
             return join_all([FRESH] + pos)
         # local closures / lambdas bound to a name
-        if isinstance(f, ast.Name) and f.id in st and st[f.id].fn:
+        if isinstance(f, ast.Name) and f.id in st and any(e_[0] != "tag" for e_ in st[f.id].fn):
             outs = []
             for ent in st[f.id].fn:
                 if ent[0] == "clo":
                     outs.append(self.call_closure((ent[1], ent[2]), call, st))
-                else:
+                elif ent[0] == "sym":
                     outs.append(self.call_sym(ent[1], call, st))
-            return join_all(outs)
+            if outs:
+                return join_all(outs)
+            pos, kw, star = self.eval_args(call, st)
+            return join(FRESH, unknownify(join_all(pos + list(kw.values()) + star + [st[f.id]])))
         if isinstance(f, ast.Lambda):
             return self.call_closure((f, st), call, st)
         if isinstance(f, ast.Name) and f.id in st:
@@ -784,7 +823,10 @@ class _FnAnalysis:
             self.eval_args(call, st)
             return FRESH
         if t.kind == "ext":
-            return self.call_ext(t.ext, call, st)
+            res = self.call_ext(t.ext, call, st)
+            if t.ext.split(".")[-1][:1].isupper() and not t.ext.startswith(("pandas.", "numpy.")) and self._nocopy_option(call, st):
+                return join(res, tagged(INPLACE_OBJ))
+            return res
         if t.kind == "attr":
             return self.method_call(call, st, stmt_expr)
         # unknown bare name: builtin, function-local import, or unresolvable
@@ -812,6 +854,14 @@ class _FnAnalysis:
         pos, kw, star = self.eval_args(call, st)
         allv = join_all(pos + list(kw.values()) + star)
         return join(FRESH, unknownify(allv)) if has_rel(allv) else FRESH
+
+    def _nocopy_option(self, call, st):
+        if _kw_const(call, "copy") is False:
+            return True
+        for k in call.keywords:
+            if k.arg is None and has_tag(self.ev(k.value, st), NOCOPY):
+                return True
+        return False
 
     def _ext_of(self, func, st):
         d = dotted(func)
@@ -996,6 +1046,17 @@ class _FnAnalysis:
         if meth in FIT_METHODS:
             self.sites.add((self.loc(call), getattr(self.fn, "name", "<lambda>"), meth))
             self.emit("fit", recv, "A", "call:" + meth, call)
+            if has_tag(recv, INPLACE_OBJ):
+                # a library estimator constructed with copy=False overwrites the data passed to fit
+                data = pos[0] if pos else kw.get("X")
+                if data is not None:
+                    self.emit("write", data, "A", "inplace-option:copy=False", call)
+        if meth in ("setdefault", "update") and isinstance(f.value, ast.Name) and f.value.id in st:
+            nocopy = (meth == "setdefault" and len(call.args) == 2 and isinstance(call.args[0], ast.Constant) and call.args[0].value == "copy"
+                      and isinstance(call.args[1], ast.Constant) and call.args[1].value is False) or \
+                     (meth == "update" and _kw_const(call, "copy") is False)
+            if nocopy:
+                st[f.value.id] = join(st[f.value.id], tagged(NOCOPY))
         if meth in MUT_ALWAYS or (meth in MUT_STMT and stmt_expr):
             if meth == "shuffle" and not _is_data_like(recv):
                 # rng.shuffle(x): the argument is permuted in place
